@@ -228,6 +228,7 @@ static int recv_events(m_ctx_t *c, int timeout) {
     c->stats.idle_time += now - last_time_called;
 
     for (int i = 0; i < nfds && !err; i++) {
+        errno = 0; // do not mistake what a user callback left behind while managing previous event for a failure on this one
         ev_src_t *p = poll_recv(&c->ppriv, i);
         if (p) {
             M_ASSERT(p->process);
